@@ -11,6 +11,46 @@ from sa.tables.reviewed import Reviewed
 from sa.util import callee, dotted
 
 
+def setter_copy_rule(prog: Program, res: Results, rid: str, r1) -> None:
+    setter = prog.func("Identifier.value#setter")
+    stores = [n for n in walk_no_nested(setter.node) if isinstance(n, ast.Assign) and isinstance(n.targets[0], ast.Attribute) and n.targets[0].attr == "value"]
+    copies = [n for n in walk_no_nested(setter.node) if isinstance(n, ast.Assign) and isinstance(n.value, ast.Call)
+              and isinstance(n.value.func, ast.Attribute) and n.value.func.attr == "model_copy"]
+    r1.instances += 1
+    if len(stores) != 1 or not copies:
+        res.unclass("Identifier.value setter: the copy of the assigned expression / the single store was not recognised")
+        return
+    from sa.util import parent_map
+    pm = parent_map(setter.node)
+    cp = copies[0]
+    stored = norm(stores[0].value)
+    guards = []
+    cur = cp
+    while cur in pm:
+        par = pm[cur]
+        if isinstance(par, ast.If) and any(cur is x for x in par.body):
+            guards.append(par.test)
+        cur = par
+    aliases = {norm(d.targets[0]): norm(d.value) for d in walk_no_nested(setter.node) if isinstance(d, ast.Assign) and isinstance(d.targets[0], ast.Name)}
+
+    def only_expression_test(t) -> bool:
+        if not (isinstance(t, ast.Call) and callee(t) == "isinstance" and len(t.args) == 2 and "NixExpression" in norm(t.args[1])):
+            return False
+        subj = norm(t.args[0])
+        subj = aliases.get(subj, subj)
+        return subj.endswith(".value")
+
+    keeps = {k.value for k in cp.value.keywords[0].value.keys} if cp.value.keywords and isinstance(cp.value.keywords[0].value, ast.Dict) \
+        and all(isinstance(k, ast.Constant) for k in cp.value.keywords[0].value.keys) else set()
+    ok = norm(cp.targets[0]) == stored and all(only_expression_test(g) for g in guards) and {"before", "after"} <= keeps
+    r1.ob(ok, {"copy": norm(cp)[:70], "guards": [norm(g)[:50] for g in guards]})
+    if not ok:
+        res.add(rid, (setter.key, "assigned expression installed without a copy on some path"), setter.loc(cp),
+                f"{setter.key}: the copy `{norm(cp)[:60]}` runs only under {[norm(g)[:50] for g in guards]}: on the other paths the caller's "
+                f"own object becomes the binding's value and is stamped with this document's scope chain — the same object, still "
+                f"referenced from another document, then resolves names there against this one")
+
+
 def run(prog: Program) -> Results:
     res = Results("C11")
     getter = prog.func("Identifier.value")
@@ -57,13 +97,9 @@ def run(prog: Program) -> Results:
     if not ok:
         res.add("R-C11-1", (setter.key, "extra document write"), setter.loc(),
                 f"the setter writes document state other than the defining binding's value: {[m.text for m in direct]}")
-    # trivia of the old value is kept: before/after taken from binding.value when the new expression has none
-    txt = alpha(setter.node, setter.node, anonymous=True)
-    r1.instances += 1
-    ok = "$.value.before if not $.before else $.before" in txt and "$.value.after if not $.after else $.after" in txt
-    r1.ob(ok, {"trivia_kept": ok})
-    if not ok:
-        res.unclass("Identifier.value setter: the trivia-preserving copy was not recognised")
+    # the assigned expression is copied before it is installed (the caller keeps its own object; the copy inherits the replaced
+    # value's trivia): the copy is skipped only when the replaced value is not an expression at all
+    setter_copy_rule(prog, res, "R-C11-1", r1)
 
     # ---------------------------------------------------------------- R-C11-2
     r2 = res.rule("R-C11-2", "assign-through precedes overwrite: every overwrite of a binding located by path is dominated, when "
